@@ -610,9 +610,157 @@ pub fn core(tier: Tier) -> Vec<Arc<dyn Scenario>> {
     out
 }
 
+// ---- the configured default exhaustion policy (Cfg::ports_exhausted) ----
+
+#[derive(Debug, Clone, Copy, PartialEq, Eq)]
+pub enum Policy {
+    Fail,
+    WaitForever,
+    /// wait with a time limit of 5 virtual seconds
+    WaitLimited,
+}
+
+/// All local ports are in use when `Client::connect()` is called; the configured default policy decides
+/// whether the request fails at once, waits, or waits for a limited time.
+pub struct PolicyScenario {
+    pub policy: Policy,
+    /// the occupied port is released after that many virtual seconds (None = never before the judgement)
+    pub release_after: Option<u64>,
+}
+
+#[derive(Default)]
+struct PObs {
+    err: Option<String>,
+    /// (virtual ms at which connect() returned, result)
+    result: Option<(u64, String)>,
+    /// what was observed 60 virtual seconds after the request was made
+    pending_at_60s: bool,
+}
+
+impl Scenario for PolicyScenario {
+    fn id(&self) -> String {
+        format!("c10-policy/{:?}/release{:?}", self.policy, self.release_after)
+    }
+
+    fn start(&self, env: Env) -> (BoxFuture<'static, ()>, Judge) {
+        let obs = shared(PObs::default());
+        let o2 = obs.clone();
+        let (policy, release_after) = (self.policy, self.release_after);
+        let root = async move {
+            env.explore(false);
+            let pe = match policy {
+                Policy::Fail => chmux::PortsExhausted::Fail,
+                Policy::WaitForever => chmux::PortsExhausted::Wait(None),
+                Policy::WaitLimited => chmux::PortsExhausted::Wait(Some(Duration::from_secs(5))),
+            };
+            let cfg_a = Cfg { max_ports: 1, ports_exhausted: pe.clone(), ..cfg(8, 16, 32, 2, 2) };
+            let cfg_b = Cfg { max_ports: 8, ports_exhausted: pe, ..cfg(8, 16, 32, 2, 2) };
+            let link = LinkOpts { capacity: 2, deliver_cap: 2, eof_on_drop: false };
+            let ((ca, la), (cb, mut lb)) = match env.pair(cfg_a, cfg_b, link, &[]).await {
+                Ok(x) => x,
+                Err(e) => {
+                    o2.lock().unwrap().err = Some(e);
+                    return;
+                }
+            };
+            // occupy A's only port
+            let (c, a) = tokio::join!(ca.connect(), lb.accept());
+            let (first_a, first_b) = match (c, a) {
+                (Ok(pa), Ok(Some(pb))) => (pa, pb),
+                _ => {
+                    o2.lock().unwrap().err = Some("first port".into());
+                    return;
+                }
+            };
+            env.quiesce().await;
+            let t0 = env.now_ms();
+            let (o3, env3, ca2) = (o2.clone(), env.clone(), ca.clone());
+            let req = env.spawn("req", 1, async move {
+                let r = ca2.connect().await;
+                let t = env3.now_ms() - t0;
+                o3.lock().unwrap().result = Some((t, match &r {
+                    Ok(_) => "Ok".to_string(),
+                    Err(e) => format!("Err({e:?})"),
+                }));
+                r.ok()
+            });
+            let acceptor = env.spawn("acceptor", 2, async move {
+                let r = lb.accept().await;
+                (r.ok().flatten(), lb)
+            });
+            let mut first = Some((first_a, first_b));
+            if let Some(s) = release_after {
+                tokio::time::sleep(Duration::from_secs(s)).await;
+                drop(first.take());
+            }
+            tokio::time::sleep(Duration::from_secs(60u64.saturating_sub(release_after.unwrap_or(0)))).await;
+            let pending = o2.lock().unwrap().result.is_none();
+            o2.lock().unwrap().pending_at_60s = pending;
+            // teardown: free the port, stop the acceptor
+            drop(first);
+            env.quiesce().await;
+            let _ = tokio::time::timeout(Duration::from_secs(30), req).await;
+            acceptor.abort();
+            let _ = acceptor.await;
+            drop((ca, la, cb));
+            env.quiesce().await;
+        };
+        let judge: Judge = Box::new(move |out: &Outcome| {
+            let o = obs.lock().unwrap();
+            let mut v = Verdict::default();
+            v.findings.extend(panic_findings(out, "C10"));
+            if let Some(e) = &o.err {
+                v.fail("C10", "policy-setup-failed", e.clone());
+            } else if out.ending != Ending::Completed {
+                v.fail("C10", "policy-scenario-stuck", format!("{:?}", out.ending));
+            } else {
+                let got = o.result.clone();
+                let what = format!("policy {policy:?}, occupied port released after {release_after:?} s: connect() returned {got:?}, still pending after 60 s: {}", o.pending_at_60s);
+                match (policy, release_after) {
+                    // refused at once with the true reason
+                    (Policy::Fail, _) => match &got {
+                        Some((t, r)) if r == "Err(LocalPortsExhausted)" && *t < 1000 => {}
+                        _ => v.fail("C10", "configured-exhaustion-policy-ignored:Fail", what),
+                    },
+                    // refused when the time limit expires, unless a port became free before
+                    (Policy::WaitLimited, None) | (Policy::WaitLimited, Some(10..)) => match &got {
+                        Some((t, r)) if r == "Err(LocalPortsExhausted)" && *t >= 5000 && *t < 7000 => {}
+                        _ => v.fail("C10", "configured-exhaustion-policy-ignored:WaitLimited", what),
+                    },
+                    (Policy::WaitLimited, Some(_)) | (Policy::WaitForever, Some(_)) => match &got {
+                        Some((_, r)) if r == "Ok" && !o.pending_at_60s => {}
+                        _ => v.fail("C10", format!("waiting-request-not-served:{policy:?}"), what),
+                    },
+                    // waits as long as it takes
+                    (Policy::WaitForever, None) => {
+                        if !o.pending_at_60s {
+                            v.fail("C10", "waiting-request-gave-up", what);
+                        }
+                    }
+                }
+            }
+            v.outcome = format!("{:?}|{}", o.result, o.pending_at_60s);
+            v.nontrivial = true;
+            v
+        });
+        (Box::pin(root), judge)
+    }
+}
+
+pub fn policy_scenarios() -> Vec<Arc<dyn Scenario>> {
+    let mut out: Vec<Arc<dyn Scenario>> = Vec::new();
+    for policy in [Policy::Fail, Policy::WaitForever, Policy::WaitLimited] {
+        for release_after in [None, Some(2), Some(20)] {
+            out.push(Arc::new(PolicyScenario { policy, release_after }));
+        }
+    }
+    out
+}
+
 pub fn all_scenarios(tier: Tier) -> Vec<Arc<dyn Scenario>> {
     let mut v = grid(tier);
     v.extend(core(tier));
+    v.extend(policy_scenarios());
     v
 }
 
@@ -622,12 +770,14 @@ pub fn run(tier: Tier, seed: u64) -> i32 {
     let q = tier == Tier::Quick;
     let p0 = Params { max_dev: 0, seeds: vec![seed, seed + 1], time_limit: Duration::from_secs(if q { 25 } else { 600 }), ..Default::default() };
     rep.add("request kinds x listener actions x max_ports x connect_queue at d=0", explore("C10", grid(tier), p0, &known));
+    let pp = Params { max_dev: 0, seeds: vec![seed], time_limit: Duration::from_secs(20), ..Default::default() };
+    rep.add("configured default exhaustion policy (fail / wait / wait with time limit) x moment at which a port becomes free", explore("C10", policy_scenarios(), pp, &known));
     let p = Params { max_dev: if q { 2 } else { 3 }, seeds: vec![seed, seed + 1], time_limit: Duration::from_secs(if q { 25 } else { 900 }), ..Default::default() };
     rep.add("concurrent connects/accepts/rejects/cancels under schedule exploration; sent-ordering", explore("C10", core(tier), p, &known));
     rep.rule = "a case = (request kinds incl. wait/no-wait/over-port/cancelled, listener action script incl. accept/inspect-accept/reject/drop/cancelled accept, max_ports pair, connect_queue, schedule deviations); distinct = distinct (results, listener ground truth, ending); non-trivial = at least one request was accepted among several, or requests were outstanding on the wire".into();
     rep.assumptions = vec![
         "ground truth = what the listener actor did with the request carrying that id; ids travel in the protocol".into(),
-        "Cfg::ports_exhausted is not enumerated: the field is never read by the implementation (see DESIGN.md F7), per-request wait flags are".into(),
+        "the configured default exhaustion policy is judged in virtual time: fail = refused within 1 s, wait with a 5 s limit = refused between 5 and 7 s unless a port was freed before".into(),
         "un-biased select! in Listener::accept/inspect fixed per seed".into(),
     ];
     rep.finish()
